@@ -61,6 +61,13 @@ def eat_data_roles(P):
                 if isinstance(tt, ast.Name) and isinstance(vv, ast.Subscript) and isinstance(vv.slice, ast.Slice) and vv.slice.upper is None \
                         and isinstance(vv.value, ast.Name) and vv.value.id == f.params[1] and T.loops_of(st):
                     roles.setdefault('part', tt.id)
+    if 'part' not in roles:
+        # the tail may be cut off behind the scanning loop (`for start in range(..)` leaves nothing to break out of): `part = chunk[start:]`
+        for st in walk_shallow(f.node):
+            if isinstance(st, ast.Assign) and isinstance(st.targets[0], ast.Name) and isinstance(st.value, ast.Subscript) and isinstance(st.value.slice, ast.Slice) \
+                    and st.value.slice.upper is None and isinstance(st.value.slice.lower, ast.Name) and isinstance(st.value.value, ast.Name) and st.value.value.id == f.params[1]:
+                roles['part'] = st.targets[0].id
+                roles['start'] = st.value.slice.lower.id
     for need in ('trest', 'trest_len', 'tlen', 'start', 'part'):
         if need not in roles:
             raise AnalysisError(f'_eat_data: cannot identify `{need}` by role')
@@ -418,15 +425,18 @@ def check(P, R):
     er = eat_data_roles(P)
     mts = [n for n in g.nodes if n.kind == 'stmt' and any(isinstance(x, ast.Call) and call_attr(x) == 'match_tail' for x in walk_shallow(n.ast))]
     R.require(len(mts) == 2, f'_eat_data: {len(mts)} match_tail calls (2 on the pinned tree)')
-    loops = [n for n in walk_shallow(ed.node) if isinstance(n, ast.While)]
+    loops = [n for n in walk_shallow(ed.node) if isinstance(n, (ast.While, ast.For)) and any(T._inside(n_.ast, n.body) for n_ in mts)]
+    R.require(loops, '_eat_data: the window scanning loop was not found')
     lp = loops[0]
     in_loop = [n for n in mts if T._inside(n.ast, lp.body)]
     tail = [n for n in mts if n not in in_loop]
     # refutation sites: local `trest_len = trest = None`
     refs = [n for n in g.nodes if n.kind == 'stmt' and isinstance(n.ast, ast.Assign) and is_const(n.ast.value, None)
             and {dotted(t) for t in n.ast.targets} == {er['trest_len'], er['trest']}]
-    R.require(len(refs) >= 3, f'_eat_data: {len(refs)} refutation sites (3 on the pinned tree)')
+    R.require(len(refs) >= 2, f'_eat_data: {len(refs)} refutation sites (3 on the pinned tree; at least one in the window loop and one in the tail block)')
     adv = [g.node_of_stmt(x)[0] for x in walk_shallow(lp) if isinstance(x, ast.AugAssign) and dotted(x.target) == er['start']]
+    if isinstance(lp, ast.For):
+        adv = [T.loop_head(g, lp)]          # `for start in range(..)`: the window moves when control returns to the loop header
     for i, rf in enumerate(refs):
         if T._inside(rf.ast, lp.body):
             ok = bool(in_loop) and all(g.must_pass(rf, a, in_loop) for a in adv)
